@@ -398,7 +398,7 @@ impl<'a> Substr<'a> {
             return false;
         }
         let mut slice = self.slice;
-        if slice[0] == b'-' {
+        if slice[0] == b'-' || slice[0] == b'+' {
             if slice.len() < 2 {
                 return false;
             }
@@ -414,7 +414,7 @@ impl<'a> Substr<'a> {
             return None;
         }
         let mut slice = self.slice;
-        if slice[0] == b'-' {
+        if slice[0] == b'-' || slice[0] == b'+' {
             if slice.len() < 2 {
                 return None;
             }
